@@ -141,7 +141,53 @@ add('k2_range', 'splice_typed_forget_e8', 'splice_h::<E8>(true, false, FORGET, f
 
 
 # ---------------------------------------------------------------------------------------------------
-MODULES = ['k1_lib', 'k2_insert', 'k2_remove', 'k2_range']
+# K2 clear / drop / clone / capacity
+for sz in ['z0', 'e8', 'e3', 'e16', 'e160']:
+    d = 'false' if sz == 'e16' else 'true'
+    add('k2_misc', 'clear_' + sz, 'clear_h::<%s>(%s, false)' % (TY[sz], d), props=['C01', 'C03', 'C05', 'C06'], tier=tier_for(sz, {'e8', 'z0'}), cost=40 if sz in SLOW else 6)
+    add('k2_misc', 'vecdrop_' + sz, 'vecdrop_h::<%s>(%s)' % (TY[sz], d), props=['C03', 'C05', 'C06'], tier=tier_for(sz, {'e8', 'e16'}), cost=40 if sz in SLOW else 6)
+add('k2_misc', 'clear_typed_e8', 'clear_h::<E8>(false, true)', props=['C01'], tier='q', cost=5)
+for sz in ['e8', 'e3', 'z0', 'e16', 'e24']:
+    add('k2_misc', 'clone_' + sz, 'clone_h::<%s>(false)' % TY[sz], props=['C08', 'C03', 'C05', 'C06'], tier=tier_for(sz, {'e8', 'z0'}), cost=60 if sz in SLOW else 10)
+add('k2_misc', 'clone_fixed_e8', 'clone_h::<E8>(true)', props=['C08', 'C11', 'C19'], tier='q', cost=10)
+add('k2_misc', 'clone_fixed_e12', 'clone_h::<E12>(true)', props=['C08', 'C11'], tier='t', cost=60)
+add('k2_misc', 'clone_empty_e8', 'clone_empty_h::<E8>(false)', props=['C08'], tier='q', cost=4)
+add('k2_misc', 'clone_empty_in_e8', 'clone_empty_h::<E8>(true)', props=['C08', 'C19'], tier='q', cost=4)
+add('k2_misc', 'clone_empty_in_e3', 'clone_empty_h::<E3>(true)', props=['C08'], tier='t', cost=10)
+for sz in ['e8', 'z0', 'e12']:
+    add('k2_misc', 'reserve_' + sz, 'reserve_h::<%s>(false)' % TY[sz], props=['C10', 'C05'], tier=tier_for(sz, {'e8', 'z0'}), cost=60 if sz in SLOW else 10)
+    add('k2_misc', 'reserve_exact_' + sz, 'reserve_h::<%s>(true)' % TY[sz], props=['C10'], tier=tier_for(sz, {'e8'}), cost=60 if sz in SLOW else 10)
+    add('k2_misc', 'shrink_to_' + sz, 'shrink_h::<%s>(false)' % TY[sz], props=['C10', 'C05'], tier=tier_for(sz, {'e8', 'z0'}), cost=60 if sz in SLOW else 10)
+    add('k2_misc', 'shrink_to_fit_' + sz, 'shrink_h::<%s>(true)' % TY[sz], props=['C10'], tier=tier_for(sz, {'e8'}), cost=60 if sz in SLOW else 10)
+add('k2_misc', 'with_capacity_e8', 'with_capacity_h::<E8>()', props=['C10', 'C05'], tier='q', cost=3)
+add('k2_misc', 'with_capacity_z0', 'with_capacity_h::<Z0>()', props=['C10'], tier='q', cost=3)
+add('k2_misc', 'new_in_e8', 'new_in_h::<E8>()', props=['C05', 'C04'], tier='q', cost=3)
+add('k2_misc', 'new_in_d24', 'new_in_h::<D24>()', props=['C05', 'C04'], tier='q', cost=3)
+add('k2_misc', 'new_in_a64', 'new_in_h::<A64>()', props=['C05', 'C04'], tier='q', cost=3)
+
+
+# ---------------------------------------------------------------------------------------------------
+# K1 handles / iterators
+INDEX_PANIC = [r'any_vec_raw::AnyVecRaw::<.*>::index_check', r'called `Option::unwrap\(\)` on a `None` value', r'Option::<.*>::unwrap']
+for sz in ['e8', 'z0', 'e3', 'e16', 'e160']:
+    add('k1_handles', 'get_' + sz, 'get_h::<%s>()' % TY[sz], props=['C13', 'C01', 'C04'], tier=tier_for(sz, {'e8', 'z0'}), cost=80 if sz in SLOW else 10, macro='p')
+for sz in ['e8', 'e12']:
+    add('k1_handles', 'get_typed_' + sz, 'get_typed_h::<%s>()' % TY[sz], props=['C13', 'C01'], tier=tier_for(sz, {'e8'}), cost=80 if sz in SLOW else 10, macro='p')
+for nm, mu, ty in [('at_oob_e8', 'false', 'false'), ('at_mut_oob_e8', 'true', 'false'), ('at_typed_oob_e8', 'false', 'true'), ('at_mut_typed_oob_e8', 'true', 'true')]:
+    add('k1_handles', nm, 'at_oob_h::<E8>(%s, %s)' % (mu, ty), props=['C13', 'C01'], tier='q', kind='panic', attrs=['#[kani::should_panic]'],
+        allow=[r'unwrap', r'index_check'], cost=4, macro='p')
+for sz in ['e8', 'z0', 'e3', 'e16']:
+    add('k1_handles', 'iter_' + sz, 'iter_h::<%s>(false)' % TY[sz], props=['C14', 'C13'], tier=tier_for(sz, {'e8', 'z0'}), cost=80 if sz in SLOW else 10, macro='p')
+add('k1_handles', 'iter_mut_e8', 'iter_h::<E8>(true)', props=['C14', 'C13'], tier='q', cost=10, macro='p')
+add('k1_handles', 'iter_mut_e12', 'iter_h::<E12>(true)', props=['C14'], tier='t', cost=80, macro='p')
+add('k1_handles', 'drain_iter_e8', 'range_iter_h::<E8>(false, false)', props=['C14', 'C02', 'C03'], tier='q', cost=15)
+add('k1_handles', 'splice_iter_e8', 'range_iter_h::<E8>(false, true)', props=['C14', 'C02'], tier='q', cost=15)
+add('k1_handles', 'drain_iter_typed_e8', 'range_iter_h::<D8>(true, false)', props=['C14', 'C02'], tier='q', cost=15)
+add('k1_handles', 'drain_iter_e3', 'range_iter_h::<E3>(false, false)', props=['C14'], tier='t', cost=100)
+
+
+# ---------------------------------------------------------------------------------------------------
+MODULES = ['k1_lib', 'k2_insert', 'k2_remove', 'k2_range', 'k2_misc', 'k1_handles']
 
 
 def write_instances(kv_dir, selected):
